@@ -22,8 +22,10 @@ Ops (request = `C02.<op>\t<arg>…`):
   prenodes).  Reply: the `Node.getState` name (`none running complete failed
   disabled`).
 * `C02.replay <line;line;…>` — a whole history as emitted by
-  harness/tiera_trace.go (`node …` lines, `start`, then events).  Reply
-  `ok <number of lines>[ note=failed-fork-masked@<line index>]` (the note: first
+  harness/tiera_trace.go (`node …` lines, `start`, then events; an optional line
+  `mode fullreset` before `start` selects `Config.FullStageReset` semantics).  Reply
+  `ok <number of lines>[ note=reopened-finished-node][ note=failed-fork-masked@<line index>]`
+  (`reopened…`: a restart gave an already finished node new forks; `masked`: first
   snapshot at which a node has a failed fork but `Node.getState` ≠ failed) or `reject <0-based line index> <reason…>`.
   `snapshot` lines are compared with the model's own derived states
   (`reject i snapshot-mismatch …`).  One normalisation is applied: the tracer
@@ -78,6 +80,7 @@ def parseObj (n f r : String) : Option Obj := do
 inductive Item where
   | node (id : Nat) (info : NodeInfo)
   | start
+  | mode (full : Bool)
   | ev (e : Ev)
   | snapshot (n : Nat) (cached live : String) (forks : List (Nat × String × List (Nat × String)))
   deriving Inhabited
@@ -108,6 +111,8 @@ def parseLine (l : String) : Option Item :=
     let pre ← ((rest.filter (· != "preflight")).map stripBr |>.filter (· != "")).mapM String.toNat?
     pure (.node id { kind := k, pre := pre, preflight := pf })
   | ["start"] => some .start
+  | ["mode", "fullreset"] => some (.mode true)
+  | ["mode", "default"] => some (.mode false)
   | ["W", n, f, r, x] => do pure (.ev (.W (← parseObj n f r) (← parseSentinel x)))
   | ["R", n, f, r, x] => do pure (.ev (.R (← parseObj n f r) (← parseSentinel x)))
   | ["D", n, f, r, x] => do pure (.ev (.D (← parseObj n f r) (← parseSentinel x)))
@@ -160,12 +165,24 @@ def normalise : List (Nat × Item) → List (Nat × Item)
   | a :: r => a :: normalise r
   | [] => []
 
-def header : List (Nat × Item) → List NodeInfo → Except String (List NodeInfo × List (Nat × Item))
-  | (i, .node id info) :: r, acc =>
-    if id == acc.length then header r (acc ++ [info]) else .error s!"reject {i} node-ids-not-consecutive"
-  | (_, .start) :: r, acc => .ok (acc, r)
-  | (i, _) :: _, _ => .error s!"reject {i} expected-node-or-start"
-  | [], _ => .error "reject 0 no-start-line"
+def header : List (Nat × Item) → List NodeInfo → Bool →
+    Except String (List NodeInfo × Bool × List (Nat × Item))
+  | (i, .node id info) :: r, acc, full =>
+    if id == acc.length then header r (acc ++ [info]) full
+    else .error s!"reject {i} node-ids-not-consecutive"
+  | (_, .mode m) :: r, acc, _ => header r acc m
+  | (_, .start) :: r, acc, full => .ok (acc, full, r)
+  | (i, _) :: _, _, _ => .error s!"reject {i} expected-node-or-start"
+  | [], _, _ => .error "reject 0 no-start-line"
+
+/-- `FullStageReset`: chunk objects that vanish with their stage directory are not
+listed by the tracer (it only says `mkchunks n f 0`): reset them first -/
+def dropChunks (s : State) (n f k : Nat) : State :=
+  if s.phase == .loading && k < s.nch n f then
+    (List.range (s.nch n f)).foldl (fun s i =>
+      let o : Obj := ⟨n, f, .chunk i⟩
+      if k ≤ i && s.m o != {} && enabled s (.reset o) then apply s (.reset o) else s) s
+  else s
 
 /-- a failed fork hidden from `Node.getState` by the `break` at an earlier unfinished fork -/
 def masked (s : State) (n : Nat) : Bool :=
@@ -174,6 +191,9 @@ def masked (s : State) (n : Nat) : Bool :=
 def run : State → Option Nat → List (Nat × Item) → Except String (State × Option Nat)
   | s, note, [] => .ok (s, note)
   | s, note, (i, .ev e) :: r =>
+    let s := match e with
+      | .mkchunks n f k => dropChunks s n f k
+      | _ => s
     match step s e with
     | some s' => run s' note r
     | none => .error s!"reject {i} {(whyNot s e).getD "?"}"
@@ -195,8 +215,8 @@ def replayLines (arg : String) : Except String (Nat × State × Option Nat) := d
       | some it => do pure ((i, it) :: (← parseAll (i + 1) r))
       | none => .error s!"reject {i} unparsable-line"
   let items ← parseAll 0 lines
-  let (nodes, evs) ← header items []
-  let (s, note) ← run (init nodes) none (normalise evs)
+  let (nodes, full, evs) ← header items [] false
+  let (s, note) ← run (if full then initFull nodes else init nodes) none (normalise evs)
   pure (lines.length, s, note)
 
 def noteStr : Option Nat → String
@@ -222,7 +242,8 @@ def handle (op : String) (args : List String) : Option String :=
     pure (nodeStateOf fs (ps.all fun p => p == .complete || p == .disabled)).name
   | "replay", [h] =>
     match replayLines h with
-    | .ok (n, _, note) => some s!"ok {n}{noteStr note}"
+    | .ok (n, s, note) =>
+      some s!"ok {n}{if s.reopened then " note=reopened-finished-node" else ""}{noteStr note}"
     | .error e => some e
   | "final", [h] =>
     match replayLines h with
